@@ -2,6 +2,8 @@
 //!  conv <k1> <k2> <operand of k1>      : x<k1> := …; y<k2> := x
 //!  reshape <k1> <operand> <r> <c> <k2> : y<[k2]:r,c> := x
 //!  toset <k> <M operand>               : y<{k}> := x
+//!  convopt <k1> <k2> <S operand of k1> : x<k1> := …; y<k2?> := x   (an option kind converts as its base kind)
+//!  optempty <k2>                       : y<k2?> := _                (the empty option)
 use crate::common::*;
 use crate::interp::*;
 use crate::c01::{operand_def, gen_operand, KINDS};
@@ -17,6 +19,8 @@ pub fn source(case: &str) -> String {
     }
     "reshape" => format!("{}y<[{}]:{},{}> := x", operand_def("x", f[1], f[2], false), f[5], f[3], f[4]),
     "toset" => format!("{}y<{{{}}}> := x", operand_def("x", f[1], f[2], false), f[1]),
+    "convopt" => format!("{}y<{}?> := x", operand_def("x", f[1], f[3], false), f[2]),
+    "optempty" => format!("y<{}?> := _", f[1]),
     _ => "bad-proto".into(),
   }
 }
@@ -74,6 +78,14 @@ pub fn generate(seed: u64, thorough: bool, sink: &mut Sink) -> Vec<String> {
       sink.hit(&format!("conv:{}->{}", k1, k2));
     }
   }}
+  // option kinds: a value converts as to the base kind, `_` stays empty
+  for k1 in &kinds_all { for k2 in &kinds_all {
+    if *k1 == "c64" && *k2 == "string" { continue; }
+    for _ in 0..(if thorough { 4 } else { 1 }) {
+      cases.push(format!("convopt\t{}\t{}\tS|{}", k1, k2, gen_value(k1, k2, &mut rng))); sink.hit("conv:option-target");
+    }
+  }}
+  for k2 in &kinds_all { cases.push(format!("optempty\t{}", k2)); sink.hit("conv:empty-option"); }
   // reshapes: every (r,c) -> (r',c') with at most 16 elements (equal and unequal counts)
   let mut shapes = vec![];
   for r in 1..=16usize { for c in 1..=16usize { if r * c <= 16 { shapes.push((r, c)); } } }
